@@ -39,6 +39,10 @@ pub struct PipeState {
     pub torn_pending_at: Option<u64>,      // when the refused retry happened
     /// M3 transport: free room (None = unlimited) and the schedule of instants (ms) that set it; active when
     /// `wsched_on` (the harness wakes the writer at every instant of the schedule)
+    /// reads answered with "end of stream": a handler that keeps asking is spinning; after 1000 of them the read is left
+    /// pending for good (the run then ends by the harness' own limit) and `eof_spin` is set
+    pub eof_reads: usize,
+    pub eof_spin: bool,
     pub wsched_on: bool,
     pub wcap: Option<usize>,
     pub wsched: VecDeque<(u64, Option<usize>)>,
@@ -57,7 +61,7 @@ impl Pipe {
                 start: Instant::now(), inq: VecDeque::new(), eof: false, rd_waker: None, wr_waker: None,
                 out_log: Vec::new(), out_seq: Vec::new(), write_script: VecDeque::new(), reads: Vec::new(), write_calls: Vec::new(),
                 shutdown: false, max_read_chunk: 0, tear_at: None, tear_stage: 0, torn_pending_at: None,
-                wsched_on: false, wcap: None, wsched: VecDeque::new(),
+                eof_reads: 0, eof_spin: false, wsched_on: false, wcap: None, wsched: VecDeque::new(),
             })),
             out_notify: Arc::new(Notify::new()),
         }
@@ -93,7 +97,11 @@ impl AsyncRead for ServerEnd {
             s.reads.push((t, n));
             return Poll::Ready(Ok(()));
         }
-        if s.eof { return Poll::Ready(Ok(())); }
+        if s.eof {
+            s.eof_reads += 1;
+            if s.eof_reads > 1000 { s.eof_spin = true; return Poll::Pending; }
+            return Poll::Ready(Ok(()));
+        }
         s.rd_waker = Some(cx.waker().clone());
         Poll::Pending
     }
